@@ -186,11 +186,18 @@ fn main() {
     let hh = h.clone();
     say!("   INFO float vector: {:?}", caught(move || bcf_bytes(&hh, &r).map(|_| "ok")));
     let r = rec(vec![], &["GT", "YFU"], vec![vec![g01(), Some(SV::from(vec![Some(1.0), Some(eov), Some(2.0)]))], vec![g01(), Some(SV::from(vec![Some(3.0)]))]]);
-    let (_, rb) = bcf_back(&bcf_bytes(&h, &r).unwrap()).unwrap();
-    say!("   FORMAT float vector [1, NaN(0x7f800002), 2] → {:?}", rb.samples().values().next().unwrap().values()[1]);
+    match bcf_bytes(&h, &r) {
+        Ok(b) => {
+            let (_, rb) = bcf_back(&b).unwrap();
+            say!("   FORMAT float vector [1, NaN(0x7f800002), 2] → {:?}", rb.samples().values().next().unwrap().values()[1]);
+        }
+        Err(e) => say!("   FORMAT float vector [1, NaN(0x7f800002), 2]: writer → Err({e}) (fixed)"),
+    }
     let r = rec(vec![], &["GT", "YF1"], vec![vec![g01(), Some(SV::from(eov))], vec![g01(), Some(SV::from(1.0f32))]]);
-    let bytes = bcf_bytes(&h, &r).unwrap();
-    say!("   FORMAT float scalar: reader → {:?}", caught(move || bcf_back(&bytes).map(|_| "ok")));
+    match bcf_bytes(&h, &r) {
+        Ok(bytes) => say!("   FORMAT float scalar: reader → {:?}", caught(move || bcf_back(&bytes).map(|_| "ok"))),
+        Err(e) => say!("   FORMAT float scalar: writer → Err({e}) (fixed)"),
+    }
 
     say!("== V7 allele index 127 → arithmetic overflow panic in the GT encoder");
     let r = rec(vec![], &["GT"], vec![vec![gt(&[(Some(0), false), (Some(127), false)])], vec![g01()]]);
@@ -219,6 +226,17 @@ fn main() {
     let (_, lz) = bcf_lazy(&bytes).unwrap();
     say!("   eager {:?}", rb.info().get("XIU"));
     say!("   lazy  {:?}", lz.info().get(&h2, "XIU").map(|r| r.map(|v| format!("{v:?}"))));
+
+    say!("== V11 (C09) a record the VCF writer rejects leaves a partial line in the output");
+    {
+        let ok = rec(vec![("XS1", Some(IV::from("ok")))], &["GT"], vec![vec![g01()], vec![g01()]]);
+        let bad = rec(vec![("XS1", Some(IV::from("x"))), ("XIU", Some(IV::from(vec![Some(i32::MIN)])))], &["GT"], vec![vec![g01()], vec![g01()]]);
+        let mut w = vcf::io::Writer::new(Vec::new());
+        let r1 = w.write_variant_record(&h, &ok).is_ok();
+        let r2 = w.write_variant_record(&h, &bad).map_err(|e| e.to_string());
+        let r3 = w.write_variant_record(&h, &ok).is_ok();
+        say!("   write ok={r1}, rejected={r2:?}, ok={r3}; output: {:?}", String::from_utf8(w.into_inner()).unwrap());
+    }
 
     say!("== V10 bcf::Record::end() on a telomeric record (POS 0) → todo!()");
     let mut r = rec(vec![], &["GT"], vec![vec![g01()], vec![g01()]]);
